@@ -1,0 +1,203 @@
+//! Verification seams. Compiled only with the cargo feature `verif`; never part of a normal
+//! build. Provides a virtual clock, a seeded random source and an in-memory UDP socket that
+//! shadow `std::time`, `rand` and `std::net` inside the crate, a work budget ("fuel") for loops
+//! that iterate on network-controlled values, and re-exports of crate-private items so that an
+//! external harness can drive them.
+
+pub use crate::half_connection::{HalfConnection, Config as HalfConfig, FrameSink, PacketSink, SendRateComp, FeedbackData};
+pub mod frame { pub use crate::frame::*; }
+pub use crate::frame::serial::Serialize;
+pub use crate::frame::serial::verif_crc_compute as crc_compute;
+
+use std::cell::{Cell, RefCell};
+use std::collections::VecDeque;
+
+/// Read-only snapshot of internal counters of a `HalfConnection`.
+#[derive(Clone, Debug, PartialEq, Default)]
+pub struct Probe {
+    pub send_rate: f64,
+    pub flush_alloc: isize,
+    pub pending_len: usize,
+    pub resend_len: usize,
+    pub send_queue_len: usize,
+    pub tx_packet_base: u32,
+    pub tx_packet_next: u32,
+    pub tx_alloc: usize,
+    pub tx_frame_base: u32,
+    pub tx_frame_next: u32,
+    pub tx_frame_log_len: u32,
+    pub rx_packet_base: u32,
+    pub rx_frame_base: u32,
+    pub rx_alloc: usize,
+    pub rx_dud_count: u64,
+    pub ack_queue_len: usize,
+    pub rto_ms: Option<u64>,
+}
+
+thread_local! {
+    static NOW_NS: Cell<u64> = Cell::new(0);
+    static RNG: Cell<u64> = Cell::new(0x9E3779B97F4A7C15);
+    static FORCED_U32: RefCell<VecDeque<u32>> = RefCell::new(VecDeque::new());
+    static FUEL: Cell<u64> = Cell::new(u64::MAX);
+    static NET: RefCell<net::World> = RefCell::new(net::World::default());
+}
+
+pub fn set_time_ms(ms: u64) { NOW_NS.with(|c| c.set(ms * 1_000_000)); }
+pub fn set_time_ns(ns: u64) { NOW_NS.with(|c| c.set(ns)); }
+pub fn time_ms() -> u64 { NOW_NS.with(|c| c.get() / 1_000_000) }
+
+pub fn set_fuel(n: u64) { FUEL.with(|c| c.set(n)); }
+pub fn fuel() -> u64 { FUEL.with(|c| c.get()) }
+pub const FUEL_PANIC: &str = "VERIF_FUEL_EXHAUSTED";
+pub fn tick() {
+    FUEL.with(|c| {
+        let v = c.get();
+        if v == 0 { panic!("VERIF_FUEL_EXHAUSTED"); }
+        c.set(v - 1);
+    });
+}
+
+pub fn seed(s: u64) {
+    RNG.with(|c| c.set(s | 1));
+    FORCED_U32.with(|q| q.borrow_mut().clear());
+}
+/// The next calls of `random::<u32>()` return these values, in order.
+pub fn force_u32(vals: &[u32]) { FORCED_U32.with(|q| q.borrow_mut().extend(vals.iter().copied())); }
+
+pub mod time {
+    pub use std::time::Duration;
+    #[derive(Clone, Copy, Debug, PartialEq, Eq, PartialOrd, Ord)]
+    pub struct Instant(u64);
+    impl Instant {
+        pub fn now() -> Self { Instant(super::NOW_NS.with(|c| c.get())) }
+    }
+    impl std::ops::Sub for Instant {
+        type Output = Duration;
+        fn sub(self, o: Instant) -> Duration { Duration::from_nanos(self.0 - o.0) }
+    }
+}
+
+pub mod rand {
+    pub trait VRand { fn make(v: u64) -> Self; }
+    impl VRand for u32 {
+        fn make(v: u64) -> Self {
+            if let Some(f) = super::FORCED_U32.with(|q| q.borrow_mut().pop_front()) { return f; }
+            (v >> 32) as u32
+        }
+    }
+    impl VRand for bool { fn make(v: u64) -> Self { (v >> 63) != 0 } }
+    pub fn random<T: VRand>() -> T {
+        super::RNG.with(|c| {
+            let mut x = c.get();
+            x ^= x << 13; x ^= x >> 7; x ^= x << 17;
+            c.set(x);
+            T::make(x.wrapping_mul(0x2545F4914F6CDD1D))
+        })
+    }
+}
+
+pub mod net {
+    pub use std::net::{SocketAddr, ToSocketAddrs, IpAddr, Ipv4Addr, Ipv6Addr};
+    use std::collections::{BTreeMap, VecDeque};
+    use std::io;
+
+    #[derive(Default)]
+    pub struct World {
+        pub inbox: BTreeMap<SocketAddr, VecDeque<(SocketAddr, Vec<u8>)>>,
+        pub wire: Vec<(SocketAddr, SocketAddr, Vec<u8>)>,
+        pub next_port: u16,
+    }
+
+    /// Datagrams sent since the last call, in order: (source, destination, bytes).
+    pub fn take_wire() -> Vec<(SocketAddr, SocketAddr, Vec<u8>)> {
+        super::NET.with(|w| std::mem::take(&mut w.borrow_mut().wire))
+    }
+    /// Puts a datagram into the receive queue of the socket bound to `dst` (dropped if none).
+    pub fn deliver(src: SocketAddr, dst: SocketAddr, data: Vec<u8>) -> bool {
+        super::NET.with(|w| {
+            if let Some(q) = w.borrow_mut().inbox.get_mut(&dst) { q.push_back((src, data)); true } else { false }
+        })
+    }
+    pub fn inbox_len(dst: SocketAddr) -> usize {
+        super::NET.with(|w| w.borrow().inbox.get(&dst).map_or(0, |q| q.len()))
+    }
+    pub fn reset() { super::NET.with(|w| *w.borrow_mut() = World::default()); }
+    /// The next `bind` to port 0 receives this port (then counting upwards).
+    pub fn set_next_port(p: u16) { super::NET.with(|w| w.borrow_mut().next_port = p); }
+
+    #[derive(Debug)]
+    pub struct UdpSocket {
+        local: SocketAddr,
+        peer: std::cell::Cell<Option<SocketAddr>>,
+    }
+
+    impl UdpSocket {
+        pub fn bind<A: ToSocketAddrs>(addr: A) -> io::Result<Self> {
+            let mut a = addr.to_socket_addrs()?.next().unwrap();
+            super::NET.with(|w| {
+                let mut w = w.borrow_mut();
+                if a.port() == 0 {
+                    if w.next_port == 0 { w.next_port = 40001; }
+                    a.set_port(w.next_port);
+                    w.next_port += 1;
+                }
+                if a.ip().is_unspecified() {
+                    match a {
+                        SocketAddr::V4(_) => a.set_ip(IpAddr::V4(Ipv4Addr::LOCALHOST)),
+                        SocketAddr::V6(_) => a.set_ip(IpAddr::V6(Ipv6Addr::LOCALHOST)),
+                    }
+                }
+                if w.inbox.contains_key(&a) {
+                    return Err(io::Error::new(io::ErrorKind::AddrInUse, "address in use"));
+                }
+                w.inbox.insert(a, VecDeque::new());
+                Ok(())
+            })?;
+            Ok(Self { local: a, peer: std::cell::Cell::new(None) })
+        }
+        pub fn set_nonblocking(&self, _: bool) -> io::Result<()> { Ok(()) }
+        pub fn connect<A: ToSocketAddrs>(&self, addr: A) -> io::Result<()> {
+            self.peer.set(addr.to_socket_addrs()?.next());
+            Ok(())
+        }
+        pub fn local_addr(&self) -> io::Result<SocketAddr> { Ok(self.local) }
+        pub fn peer_addr(&self) -> io::Result<SocketAddr> {
+            self.peer.get().ok_or(io::Error::new(io::ErrorKind::NotConnected, "not connected"))
+        }
+        pub fn send_to<A: ToSocketAddrs>(&self, buf: &[u8], addr: A) -> io::Result<usize> {
+            let dst = addr.to_socket_addrs()?.next().unwrap();
+            super::NET.with(|w| w.borrow_mut().wire.push((self.local, dst, buf.to_vec())));
+            Ok(buf.len())
+        }
+        pub fn send(&self, buf: &[u8]) -> io::Result<usize> {
+            let p = self.peer_addr()?;
+            self.send_to(buf, p)
+        }
+        pub fn recv_from(&self, buf: &mut [u8]) -> io::Result<(usize, SocketAddr)> {
+            super::tick();
+            super::NET.with(|w| {
+                match w.borrow_mut().inbox.get_mut(&self.local).and_then(|q| q.pop_front()) {
+                    Some((src, d)) => {
+                        let n = d.len().min(buf.len());
+                        buf[..n].copy_from_slice(&d[..n]);
+                        Ok((n, src))
+                    }
+                    None => Err(io::Error::new(io::ErrorKind::WouldBlock, "would block")),
+                }
+            })
+        }
+        /// A connected UDP socket only receives datagrams from its peer.
+        pub fn recv(&self, buf: &mut [u8]) -> io::Result<usize> {
+            loop {
+                let (n, src) = self.recv_from(buf)?;
+                if Some(src) == self.peer.get() { return Ok(n); }
+            }
+        }
+    }
+
+    impl Drop for UdpSocket {
+        fn drop(&mut self) {
+            let _ = super::NET.try_with(|w| { w.borrow_mut().inbox.remove(&self.local); });
+        }
+    }
+}
